@@ -94,6 +94,18 @@ CHECKS.update({
                           "blocks so that repeats lie just inside every window in play; an independent zlib endpoint honouring the parameters over the whole history compresses the server's messages and "
                           "inflates the client's frames in wire order; Mon_C06 (TLC) checks exact restoration both ways, never wrong content, RSV1 only with negotiation and compress=True.",
             "level_note": _NOTE + "Bit-level DEFLATE is outside TLA+: decided by the zlib peer (trusted). 4 (quick) / 12 histories per configuration."},
+    "C11": {"technique": "explicit TLA+ model of the send path at shared-access granularity (spec/Threads.tla) checked by TLC over all interleavings (repaired variant satisfies the invariants, as-found variant violates them); on the code side a deterministic line-granular scheduler enumerates all schedules of real threads up to a pre-emption bound; each recorded execution judged by the TLA+ monitor Mon_C11 evaluated by TLC",
+            "level_text": "TLC explores every interleaving of the Threads.tla model (write lock, compress lock, closing flag, two-step sendall) for three thread programs. Because a model's schedules cannot reveal a missing "
+                          "lock in the code, schedules are explored on the code: real threads running the real send path under sys.settrace, one at a time, with hand-over possible at every source line inside lomond/, at "
+                          "contended locks and between the two halves of every sendall; all schedules with <= 1 (quick) / 2 (thorough) pre-emptions of 5 thread programs are executed (plus 20000 random opcode-granular "
+                          "schedules in the thorough tier); the wire is decoded by the independent decoder (compressed messages inflated in wire order by a context-takeover peer) and Mon_C11 (TLC) judges every distinct recorded execution.",
+            "level_note": _NOTE + "C-level atomicity of zlib objects and of one sendall half is assumed; the loop thread is represented by the calls it makes (_send_pong, _check_auto_ping, _on_close)."},
+    "C12": {"technique": "explicit TLA+ model of the send path at shared-access granularity (spec/Threads.tla) checked by TLC over all interleavings (repaired variant satisfies the invariants, as-found variant violates them); on the code side a deterministic line-granular scheduler enumerates all schedules of real threads up to a pre-emption bound; each recorded execution judged by the TLA+ monitor Mon_C12 evaluated by TLC",
+            "level_text": "TLC explores every interleaving of the Threads.tla model (write lock, compress lock, closing flag, two-step sendall) for three thread programs. Because a model's schedules cannot reveal a missing "
+                          "lock in the code, schedules are explored on the code: real threads running the real send path under sys.settrace, one at a time, with hand-over possible at every source line inside lomond/, at "
+                          "contended locks and between the two halves of every sendall; all schedules with <= 1 (quick) / 2 (thorough) pre-emptions of 5 thread programs are executed (plus 20000 random opcode-granular "
+                          "schedules in the thorough tier); the wire is decoded by the independent decoder (compressed messages inflated in wire order by a context-takeover peer) and Mon_C12 (TLC) judges every distinct recorded execution.",
+            "level_note": _NOTE + "C-level atomicity of zlib objects and of one sendall half is assumed; the loop thread is represented by the calls it makes (_send_pong, _check_auto_ping, _on_close)."},
     "C14": _sess("Mon_C14", "pongs = answerable pings (payload, order, multiplicity), each written before its Ping event; none with auto_pong off; failing pong writes do not disturb the event stream (twin run)",
                  "<= 3 (quick) / 4 frames incl. 125-byte all-byte-values ping blobs, several items per read, application send/close reactions, failing writes."),
 })
